@@ -1,2 +1,43 @@
-/- C01 correspondence driver (stub: replaced when the property's model is built) -/
-def main : IO Unit := IO.println "stub"
+import PnVerif.Lemmas.Access
+/-
+  C01 unit driver: the model's `strideFlatten` / `firstOffset` and the specification's enumeration
+  on the same lines as harness/c01_unit.c.
+    SF ... -> <seglen> <nblocks> disps...  |  spec: element offsets (relative to begin) in request order
+    FO ... -> <model offset> <spec offset>
+-/
+open PnVerif.Access
+
+def nats (ts : List String) : List Nat := ts.map (fun t => t.toNat?.getD 0)
+
+def step (line : String) : String :=
+  match (line.trimAscii.toString.splitOn " ").filter (· != "") with
+  | "SF" :: isrec :: xsz :: recsize :: nd :: rest =>
+    let n := nd.toNat?.getD 0
+    let xs := nats rest
+    let shape := xs.take n
+    let start := (xs.drop n).take n
+    let count := (xs.drop (2 * n)).take n
+    let stride := (xs.drop (3 * n)).take n
+    let v : VarLay := { begin := 0, xsz := xsz.toNat?.getD 1, shape := shape, isRec := isrec == "1", recsize := recsize.toNat?.getD 0 }
+    let r := strideFlatten v start count stride
+    let nblocks := r.1.length
+    let modelS := s!"{if nblocks > 0 then r.2 else 0} {nblocks}" ++ String.join (r.1.map (fun d => s!" {d}"))
+    let specOffs := (enumIdx start count stride).map (fun idx => elemOff v idx)
+    let implied := expandBlocks v.xsz r.1 r.2
+    modelS ++ " | " ++ String.intercalate " " (specOffs.map toString) ++ " | " ++ String.intercalate " " (implied.map toString)
+  | "FO" :: isrec :: xsz :: recsize :: begin :: nd :: rest =>
+    let n := nd.toNat?.getD 0
+    let xs := nats rest
+    let shape := xs.take n
+    let start := (xs.drop n).take n
+    let v : VarLay := { begin := begin.toNat?.getD 0, xsz := xsz.toNat?.getD 1, shape := shape, isRec := isrec == "1", recsize := recsize.toNat?.getD 0 }
+    s!"{firstOffset v start} {elemOff v start}"
+  | _ => "bad-op"
+
+partial def loop (h : IO.FS.Stream) (out : IO.FS.Stream) : IO Unit := do
+  let line ← h.getLine
+  if line.isEmpty then return ()
+  out.putStrLn (step line)
+  loop h out
+
+def main : IO Unit := do loop (← IO.getStdin) (← IO.getStdout)
